@@ -41,20 +41,20 @@ def close(ctx, failed):
 
 
 def mc_configs(tier):
-    # name, H, W, alphabet, n
+    # name, H, W, alphabet, n      (quick: <= 500 CPU-s for the whole check; the volume is in thorough)
     q = [
         ("3x3_b_n4", 3, 3, [0, 1], 4),
         ("3x3_b_n8", 3, 3, [0, 1], 8),
         ("3x4_b_n4", 3, 4, [0, 1], 4),
-        ("4x3_b_n8", 4, 3, [0, 1], 8),
-        ("2x3_nan_n4", 2, 3, [0, 1, NANV], 4),
         ("3x2_nan_n8", 3, 2, [0, 1, NANV], 8),
-        ("2x3_t_n8", 2, 3, [0, 1, 2], 8),
         ("1x7_nan_n4", 1, 7, [0, 1, NANV], 4),
         ("7x1_nan_n8", 7, 1, [0, 1, NANV], 8),
         ("1x1_n4", 1, 1, [0, NANV], 4),
     ]
     t = q + [
+        ("4x3_b_n8", 4, 3, [0, 1], 8),
+        ("2x3_nan_n4", 2, 3, [0, 1, NANV], 4),
+        ("2x3_t_n8", 2, 3, [0, 1, 2], 8),
         ("4x4_b_n4", 4, 4, [0, 1], 4),
         ("4x4_b_n8", 4, 4, [0, 1], 8),
         ("3x3_nan_n4", 3, 3, [0, 1, NANV], 4),
@@ -334,28 +334,37 @@ def comb_shape(rng):
     return cells
 
 
-def hook_shape(rng):
-    """late-meeting arms around one cell q: single-cell or short diagonal tips on some of its corners and a
-    long arm that starts in an earlier row, runs around and reaches q from the opposite side"""
+def hook_shape(nw, ne, se, far, top, low):
+    """late-meeting arms around one cell q = (0,0): diagonal tips of length nw / ne / se on its corners and a
+    long arm that starts `top` rows above q in column -far, runs down and around and reaches q from below-left"""
     cells = {(0, 0): 1}
-    for (dr, dc) in ((-1, -1), (-1, 1)):
-        if rng.random() < 0.85:
-            for j in range(1, rng.randint(1, 2) + 1):
-                cells[(dr * j, dc * j)] = 1
-    far = rng.randint(3, 4)           # column of the vertical part of the hook
-    top = rng.randint(-2, -1)
-    low = rng.randint(1, 2)
+    for j in range(1, nw + 1):
+        cells[(-j, -j)] = 1
+    for j in range(1, ne + 1):
+        cells[(-j, j)] = 1
+    if se:
+        cells[(1, 1)] = 1
     for r in range(top, low + 1):
         cells[(r, -far)] = 1
-    for c in range(-far, -1 + 1):
+    for c in range(-far, 0):
         cells[(low, c)] = 1
-    for j in range(1, low):           # diagonal from the end of the hook up to q
-        cells[(low - j, -1 + j)] = 1 if low - j != 0 else cells.get((0, 0), 1)
-    if low == 1:
-        pass                          # (1,-1) is q's SW corner
-    if rng.random() < 0.3:
-        cells[(1, 1)] = 1             # a tip on the SE corner as well
+    for j in range(1, low):
+        cells[(low - j, -1 + j)] = 1
     return cells
+
+
+def hook_jobs():
+    """the whole parameter space of hook_shape x 8 symmetries x {off every border, on the borders, off the
+    borders with the second value filling the gaps} x both neighbourhoods"""
+    jobs = []
+    for nw, ne, se, far, top, low in itertools.product((0, 1, 2), (0, 1, 2), (0, 1), (3, 4), (-2, -1), (1, 2)):
+        cells = hook_shape(nw, ne, se, far, top, low)
+        for k in range(8):
+            for margins, fill in (((1, 1, 1, 1), None), ((0, 0, 0, 0), None), ((1, 1, 1, 1), 2)):
+                g = sym(place(cells, margins, fill), k)
+                for nb in (4, 8):
+                    jobs.append(plain_job(g, nb, "arms_hook%s" % ("_filled" if fill else "")))
+    return jobs
 
 
 def tree_shape(rng, H, W):
@@ -374,17 +383,15 @@ def tree_shape(rng, H, W):
 
 
 def multiarm_jobs(rng, n):
-    """(b) late-meeting multi-arm shapes under the 8 symmetries, shifted off every border (margins 0/1),
+    """(b) seeded late-meeting multi-arm shapes (combs, thin trees) under the 8 symmetries, shifted off every border (margins 0/1),
     rasters up to 8x10, with and without a second value filling the gaps, both neighbourhoods"""
     jobs = []
     i = 0
     while len(jobs) < n:
         i += 1
-        kind = ("comb", "hook", "hook", "tree")[i % 4]
+        kind = ("comb", "tree", "tree")[i % 3]
         if kind == "comb":
             cells = comb_shape(rng)
-        elif kind == "hook":
-            cells = hook_shape(rng)
         else:
             cells = tree_shape(rng, rng.randint(4, 7), rng.randint(4, 8))
         margins = tuple(rng.choice([0, 1, 1]) for _ in range(4))
@@ -487,8 +494,10 @@ def run(ctx):
         mc(ctx, failed, "Regions", dict(spec="Spec", invariants=INV, constants=dict(
             H=H, W=W, VALS=set(base), N=n, MUT="none")), name, coverage=(name == "3x3_b_n4"), timeout=4 * 3600)
     # negative twins: TLC must reject each broken variant of the two passes
-    for mut, H, W, n in (("nopass2", 3, 3, 4), ("noelse", 3, 3, 4), ("localreplace", 3, 3, 4),
-                         ("alwaysnew", 3, 4, 4)):
+    twins = [("nopass2", 3, 3, 4), ("noelse", 3, 3, 4), ("localreplace", 3, 3, 4)]
+    if ctx.tier == "thorough":
+        twins.append(("alwaysnew", 3, 4, 4))        # needs an interior isolated pair: 100k states
+    for mut, H, W, n in twins:
         ctx.model_check("Regions", dict(spec="Spec", invariants=["PartitionIsComponents"], constants=dict(
             H=H, W=W, VALS={0, 1}, N=n, MUT=mut)), "neg_" + mut, expect="violation")
     ctx.exhaustive = True
@@ -497,8 +506,11 @@ def run(ctx):
     ejobs = []
     for cfg in cfgs:
         ejobs += enum_jobs(cfg)
-    tjobs = random_jobs(rng, ctx.pick(400, 4000), 10)
-    allcases = core.run_jobs("regions_worker", ejobs + tjobs)
+    sizes = [(h, w) for h in (4, 5, 6) for w in (4, 5, 6)]
+    fjobs = (placement_jobs(rng, sizes) + hook_jobs() + multiarm_jobs(rng, ctx.pick(1500, 12000))
+             + small_random_jobs(rng, ctx.pick(3000, 40000)))
+    tjobs = fjobs + random_jobs(rng, ctx.pick(300, 4000), 10)
+    allcases = core.run_jobs("regions_worker", ejobs + tjobs, nproc=ctx.pick(8, 16))
     # ---- R: the complete enumerated scope through the real regions()
     cases = allcases[:len(ejobs)]
     good = judge_and_handle(ctx, cases, "replay_all_rasters", "R", parallel=8)
@@ -511,7 +523,8 @@ def run(ctx):
     cases = allcases[len(ejobs):]
     del allcases
     good = judge_and_handle(ctx, cases, "seeded_shapes", "T", parallel=8)
-    for c in good[:3]:
+    ctx.extra["targeted_family_cases"] = len(fjobs)
+    for c in good[-3:]:
         ctx.sample({"kind": "seeded", "gen": c["tag"], "n": c["n"], "dtype": c["dtype"], "vals": c["vals"],
                     "labels": c["out"]})
     close(ctx, failed)
